@@ -136,6 +136,13 @@ func (w *World) emit(sender *Node, to int, bcast bool, data []byte) {
 			w.replace(b, m)
 			w.fault("byz.inconsistent." + m.Kind)
 		}
+		if w.c.Bool(1, 5, "byz.alsolate") {
+			// composite behaviour: the bad message moreover lands one or two rounds later
+			d := 1 + w.c.Choose(2, "byz.late.by")
+			m.Round += d
+			m.Label += fmt.Sprintf("+late%d", d)
+			w.fault("byz.late." + m.Kind)
+		}
 		if w.c.Bool(1, 3, "byz.alsohold") {
 			// composite behaviour: the bad message is moreover sent later in the round (e.g. a
 			// malformed vector broadcast after an unsolicited answer)
@@ -237,7 +244,27 @@ func (w *World) corrupt(b *Byz, m *Msg) {
 		if np > 0 {
 			pos = c.Choose(np, "corrupt.vec.pos")
 		}
-		switch pick(c, 12, "corrupt.vec") {
+		switch pick(c, 13, "corrupt.vec") {
+		case 12:
+			// the point at infinity at some position, an invalid point right after it
+			if np >= 3 {
+				q := 1 + c.Choose(np-2, "corrupt.vec.infpos")
+				inf := make([]byte, 96)
+				inf[0] = 0xC0
+				copy(pl[96*q:], inf)
+				switch c.Choose(3, "corrupt.vec.afterinf") {
+				case 0:
+					copy(pl[96*(q+1):], curve.G2NonSubgroup(rnd))
+				case 1:
+					copy(pl[96*(q+1):], curve.G2XTooLarge(rnd))
+				default:
+					pl[96*(q+1)] &^= 0x80
+				}
+				how = "infinity-then-invalid"
+				break
+			}
+			copy(pl[96*pos:], curve.G2OffCurve(rnd))
+			how = "offcurve"
 		case 11:
 			// a genuine G2 point plus a point of small prime order: on the curve, outside G2
 			if np > 0 {
@@ -371,7 +398,12 @@ func (w *World) otherScalar(b *Byz, j int, tag byte, rnd *choice.Src, hdr []byte
 	if hdr == nil {
 		hdr = []byte{tag}
 	}
-	switch w.c.Choose(4, "replace.scalar") {
+	switch w.c.Choose(5, "replace.scalar") {
+	case 4:
+		if s, ok := b.realShares[j]; ok {
+			// r - P(j): the opposite point has the same x coordinate
+			return append(append([]byte(nil), hdr...), curve.ScalarNeg(s)...), "X", j, "negatedshare"
+		}
 	case 0:
 		if s, ok := b.shadowShares[j]; ok {
 			return append(append([]byte(nil), hdr...), s...), "B", j, "shadowshare"
